@@ -1124,11 +1124,17 @@ package tree
 //@     invariant [only_entries_whose_count_is_in_the_window] forall k int :: {bitsets[k]} 0 <= k && k < len(bitsets) ==> bitsets[k] != nil && bitsets[k].val != nil && inwindow(bitsets[k].val.Count, minCount, maxCount)
 //@     invariant [every_entry_in_the_window_is_selected] forall j int :: {keyvalues[j]} 0 <= j && j <= rangeindex && inwindow(eiinfo(keyvalues[j]).Count, minCount, maxCount) ==> (exists k int :: {bitsets[k]} 0 <= k && k < len(bitsets) && bitsets[k].val == eiinfo(keyvalues[j]))
 
+// AddEdgeCount (properties C04, C09): a split looked up and not found is inserted with count 1 and the branch's
+// length; a split found gets its count incremented by one and the branch's length added; nothing else is written
 //@ func (*tree.EdgeIndex).AddEdgeCount
-//@   flag treeop
-//@   requires em != nil && e != nil
+//@   requires em != nil && e != nil && em.hash != nil && HMok(em.hash) && HMplaced(em.hash)
+//@   requires forall kv *hashmap.KeyValue :: {kv.Value} allocated(kv) ==> itag(kv.Value) == typetag("*EdgeIndexInfo") && iref(kv.Value) != 0
 //@   allocates EdgeIndexInfo, hashmap.KeyValue, []hashmap.Bucket, []*hashmap.KeyValue, iface
 //@   assigns hashmap.HashMap.mapArray, hashmap.HashMap.capacity, hashmap.HashMap.total, elems("hashmap.Bucket"), elems("*hashmap.KeyValue"), hashmap.KeyValue.Value, EdgeIndexInfo.Count, EdgeIndexInfo.Len, ghost(lock_Lock), ghost(lock_Unlock), ghost(lock_RLock), ghost(lock_RUnlock)
+//@   call (*hashmap.HashMap).Value [the_split_of_the_branch_is_looked_up] a0 == em.hash && iref(a1) == e && itag(a1) == typetag("*Edge")
+//@   call (*hashmap.HashMap).PutValue [a_split_seen_for_the_first_time_starts_at_count_one_with_the_branch_length] !ok && a0 == em.hash && iref(a1) == e && itag(a2) == typetag("*EdgeIndexInfo") && cast(iref(a2), "*EdgeIndexInfo").Count == 1 && cast(iref(a2), "*EdgeIndexInfo").Len == e.length
+//@   return [a_split_already_seen_gets_one_more_occurrence_and_the_branch_length_added] e.bitset != nil && ok ==> cast(iref(v), "*EdgeIndexInfo").Count == old(cast(iref(v), "*EdgeIndexInfo").Count) + 1 && cast(iref(v), "*EdgeIndexInfo").Len == old(cast(iref(v), "*EdgeIndexInfo").Len) + e.length && em.hash.total == old(em.hash.total)
+//@   ensures [no_bitset_is_an_error] old(e.bitset) == nil ==> result != nil
 
 //@ func tree.StarTreeFromTree
 //@   flag treeop
